@@ -251,6 +251,8 @@ class P(Prop):
         (M, "TV.C11.extract_inclusive", "Track.extract(a, b), 0 <= a <= b < size, is the run a..b with both ends"),
         (M, "TV.C11.extract_reversed_empty", "Track.extract(a, b) with a > b is the empty track, never an error"),
         (M, "TV.C11.split_indices", "split(track, [sorted in-range indices], limit): the runs i_k..i_{k+1} that are not short, len-1 of them when limit = 0"),
+        (M, "TV.C11.extract_any", "Track.extract(a, b) for any integers: IndexError iff some index of a..b is outside [-size, size); else b-a+1 observations, the j-th being track[a+j] (Python indexing)"),
+        (M, "TV.C11.split_indices_any", "split(track, <any index list>, limit): IndexError iff one of the ranges source[i]..source[i+1] leaves [-size, size); else the extracts that are not short, in order"),
         (M, "TV.C11.split_collection", "split_segmentation: the pieces in order are the tracks having a marked observation, each observation once, in order"),
         (M, "TV.C11.marker_and_ord", "AND mode, any scalar type with a total comparison: call succeeds and marker = 1 iff some tested non-NaN value exceeds its threshold"),
         (M, "TV.C11.marker_or_ord", "OR mode, same generality: marker = 1 iff every tested non-NaN value exceeds its threshold"),
@@ -282,13 +284,22 @@ class P(Prop):
         (M, "TV.C11.segmentation_track_typed", "segmentation_track for the operator-call model: tested features of any kind (built-in 'timestamp' included), typed against their thresholds"),
         (M, "TV.C11.segmentation_track_val", "the same on numbers and ObsTime objects: every tested feature holding values of the kind of its threshold (e.g. ['speed', 'timestamp'] against [5.0, ObsTime])"),
         (M, "TV.C11.segmentation_history_typed", "segmentation_history for the operator-call model, exceptions included"),
+        (M, "TV.C11.split_reads_named_column", "getObsAnalyticalFeature(source, i) finds the column stored under the whole string `source` (not stripped, not parsed), whatever other features exist and whatever their names are"),
+        (M, "TV.C11.split_track_frame", "split(track, source[, limit]) depends on the track only through its size and the column read under the name `source`"),
+        (M, "TV.C11.split_track_property", "for a track having a feature `source`: split(track, source) succeeds; no cell equal to 1 -> empty; else the pieces are 0..size-1 once and in order, each but the last ending at a cell equal to 1 and holding no other, the last holding none"),
+        (M, "TV.C11.split_track_uid", "the same front end with a limit: the pieces of split_limit_filter with the uid numbers, on the markers read under the name"),
+        (M, "TV.C11.split_track_unknown", "outside the domain: an unknown name is AnalyticalFeatureError on a non-empty track, the empty collection on an empty one"),
+        (M, "TV.C11.segmentation_then_split", "segmentation(track, afs, out, ths, mode) then split(track, out): both succeed and the result is the split on the markers of the rows (the 1 / 0 column is read back under the same name with == 1), any kind of value"),
+        (M, "TV.C11.segmentation_then_split_val", "the same on numbers and ObsTime objects with Python's == 1 (1, 1.0, True are marked; NaN, other numbers, an ObsTime are not)"),
     ]
     partial = []
     open_statements = [
         "Track.length is an uninterpreted function of the piece in the limit theorems (that is what makes them cover NaN lengths); "
         "its float evaluation (sqrt, the order of the additions) is only in the driver (model run at Float) and the correspondence",
-        "split(track, <index list>) with unsorted / negative / out-of-range indices: modelled (Python indexing, IndexError) and run in the "
-        "correspondence, no theorem beyond extract_reversed_empty",
+        "Track.__getitem__ (track[name]: strip() of the key, a key holding one of + - / * ^ > < ( ) = ' { handed to the expression "
+        "evaluator of C02) is not on the call path of split() / segmentation(), which go through getObsAnalyticalFeature / "
+        "setObsAnalyticalFeature / createAnalyticalFeature; it is not modelled here: the model's lookup is by the exact string "
+        "(split_reads_named_column) and the correspondence runs names on which the two would differ",
         "a NaN threshold, thresholds_max = None, tuples as feature lists, an empty track (AnalyticalFeatureError) are outside the domain",
         "a number tested against an ObsTime threshold or the reverse (AttributeError unless the marker is already decided: `False and ...`, "
         "`True or ...`) is outside the domain: modelled (Val.le?, the evaluation order in foldCmpG), theorems marker_first_raises / "
@@ -297,7 +308,9 @@ class P(Prop):
         "at Float on TV.ObsTime.toAbsSec; values of other classes with their own __le__ / __ne__ (strings, user classes) are covered by "
         "marker_and_typed / marker_or_typed as hypotheses on the operators, not generated",
     ]
-    modelled = ("segmentation.split(track, <feature name>, limit) (begin / extract(begin, i) inclusive / begin moved before the limit test / "
+    modelled = ("segmentation.split(track, <feature name>, limit) as a whole: the marker read through getObsAnalyticalFeature(name, i) "
+                "(the six built-in names first, then the feature dictionary by the exact string), `== 1` by value (1, 1.0, True; not NaN, "
+                "not an ObsTime), AnalyticalFeatureError for an unknown name unless the track is empty; the loop (begin / extract(begin, i) inclusive / begin moved before the limit test / "
                 "the two limit tests `limit > 0 and length < limit` and `limit == 0 or (limit > 0 and length >= limit)` / tail when "
                 "begin != 0, the uid numbers count / begin / end of every piece), split(track, <index list>, limit), Track.extract (range(a, b+1) with Python list indexing, a > b gives an "
                 "empty track), Track.length (sum of 3D distances, at Float), TrackCollection.segmentation / split_segmentation, and "
@@ -308,7 +321,16 @@ class P(Prop):
                 "`v <= threshold` as Python operator calls on numbers and ObsTime objects (ObsTime.__ne__ / __le__ / __gt__ of core/obs_time.py, "
                 "the AttributeError of a number against an ObsTime, the evaluation order of `comp and (...)` / `comp or (...)`); "
                 "Track.getObsAnalyticalFeature for the built-in names x y z t timestamp idx")
-    rule = ("HISTORY: about half of the segmentation cases run on a track whose output feature already exists (left by a previous "
+    rule = ("NAMES: feature names are arbitrary strings (any but x y z t timestamp idx): the marker of split(), the tested and output "
+            "features of segmentation() (also through TrackCollection) are also given names that are not identifiers — reading like an "
+            "expression over OTHER features of the same track, which exist with per-observation values 0..3 / NaN (`speed-limit` next to "
+            "`speed` and `limit`, `a>=b`, `2*a`, `(a)`, `D{a}`, `a=b`), differing from another feature's name by surrounding blanks / tab / "
+            "newline (` a` next to `a`), holding separators, quotes, braces, brackets, non-ASCII letters, or looking like a number; every "
+            "marker vector n = 1..4 (6) x every such form; split() on a name the track does not have (outside the domain: run, not compared). "
+            "The oracle finds the marker cells in the case's own data by the exact name. Every split() case also runs on the model's "
+            "track (splitTrackU: the name looked up in the table, == 1 on the cell) and must agree with the loop on the marker vector; "
+            "every segmentation()+split() case runs segseqsplitv (split reading the written column back by name). "
+            "HISTORY: about half of the segmentation cases run on a track whose output feature already exists (left by a previous "
             "segmentation() with other thresholds/mode, created by the user with 0/1/2/0.5/NaN values, or all 1s), or write the marker into one "
             "of the tested features; other features (incl. names like #mark, #0, marker, out), uid, tid, base vary; the model replays the whole "
             "sequence of calls on the feature table and the whole table is compared; the oracle is about the LAST call. "
@@ -854,6 +876,8 @@ class P(Prop):
                 t["infinite"] = "yes"
         if k == "coll":
             t["tracks"] = len(case["tracks"])
+            if case.get("names"):
+                t["names"] = "exotic"
         if case.get("env"):
             t["env"] = "+".join(sorted(k_ for k_ in case["env"] if k_ != "extra_after"))
         return t
